@@ -143,6 +143,15 @@ def AggDef.emit (d : AggDef) (a : Acc) : Outcome Value :=
   | _, .pct _ => .panic "accumulator/definition mismatch"
   | _, .distinct seen => .ok (.int seen.length)
 
+/-- `Record::ordering_ref` over column names -/
+def orderingRef (cols : List String) (l r : Fields) : Ordering :=
+  match cols with
+  | [] => .eq
+  | c :: cs =>
+    match Value.cmpOpt (Fields.get c l) (Fields.get c r) with
+    | .eq => orderingRef cs l r
+    | o => o
+
 /-! ### MultiGrouper -/
 
 structure Grouper where
@@ -209,8 +218,7 @@ def Grouper.processRow (ext : Ext) (g : Grouper) (st : GroupState) (row : Fields
   | .panic p => .panic p
   | .unmodelled w => .unmodelled w
 
-/-- `MultiGrouper::emit`.  Rows come out in first-seen order here; the real code iterates a
-`HashMap` (HASH ORDER) — callers must not depend on the row order of this table. -/
+/-- `MultiGrouper::emit`: one row per group, ordered by the key columns. -/
 def Grouper.emit (g : Grouper) (st : GroupState) : Outcome Table := do
   let defs := g.accNames
   let rows ← st.mapM (fun (ka : List Value × List (String × Acc)) => do
@@ -219,7 +227,9 @@ def Grouper.emit (g : Grouper) (st : GroupState) : Outcome Table := do
       let v ← da.1.2.emit da.2.2
       pure (da.1.1, v))
     pure (cells.foldl (fun d kv => Fields.put kv.1 kv.2 d) base))
-  pure { columns := g.headers ++ g.fns.map Prod.fst, rows := rows }
+  -- groups are emitted in key order (stable w.r.t. the state order for keys that compare equal)
+  pure { columns := g.headers ++ g.fns.map Prod.fst,
+         rows := rows.mergeSort (fun l r => orderingRef g.headers l r != .gt) }
 
 /-! ### Sorter -/
 
@@ -243,15 +253,6 @@ def orderingBy (ext : Ext) (cols : List Expr) (l r : Fields) : Outcome Ordering 
     | .unmodelled w, _ => .unmodelled w
     | _, .unmodelled w => .unmodelled w
 
-/-- `Record::ordering_ref` over column names -/
-def orderingRef (cols : List String) (l r : Fields) : Ordering :=
-  match cols with
-  | [] => .eq
-  | c :: cs =>
-    match Value.cmpOpt (Fields.get c l) (Fields.get c r) with
-    | .eq => orderingRef cs l r
-    | o => o
-
 /-- the comparator `Sorter::emit` hands to `sort_by` -/
 def sortCmp (ext : Ext) (cols : List Expr) (dir : SortDir) (columns : List String) (l r : Fields) : Ordering :=
   let primary := match dir with
@@ -271,29 +272,6 @@ def sortKeysOk (ext : Ext) (cols : List Expr) (rows : List Fields) : Bool :=
     | .ok _ => true
     | .err _ => true
     | _ => false))
-
-/-- does the comparator reach an object-vs-object comparison (im::HashMap's `Ord` iterates in
-per-map hash order: not a function of the contents, so the model does not predict it)? -/
-def cmpReachesObj (ext : Ext) (cols : List Expr) (columns : List String) (l r : Fields) : Bool :=
-  let keyObj := cols.any (fun c =>
-    match evalValue ext l c, evalValue ext r c with
-    | .ok (.obj _), .ok (.obj _) => true
-    | _, _ => false)
-  let primaryEq := match orderingBy ext cols l r with
-    | .ok .eq => true
-    | _ => false
-  -- the secondary ordering walks the column list until the first difference
-  let rec walk : List String → Bool
-    | [] => false
-    | c :: cs =>
-      match Fields.get c l, Fields.get c r with
-      | some (.obj _), some (.obj _) => true
-      | a, b => if Value.cmpOpt a b == .eq then walk cs else false
-  keyObj || (primaryEq && walk columns)
-
-/-- the sort's result is a function of the rows' contents -/
-def sortDetermined (ext : Ext) (cols : List Expr) (columns : List String) (rows : List Fields) : Bool :=
-  rows.all (fun l => rows.all (fun r => !cmpReachesObj ext cols columns l r))
 
 def sortRows (ext : Ext) (cols : List Expr) (dir : SortDir) (columns : List String) (rows : List Fields) :
     List Fields :=
